@@ -85,6 +85,9 @@ type pathRun struct {
 	curveTab map[*value]*curveObj
 	nonneg   map[*smt.Term]bool
 	concPts  []concPt
+	draining bool
+	inc      *smt.Inc
+	hashIntApps []hashIntApp
 }
 
 func (p *pathRun) note(format string, a ...interface{}) {
@@ -161,13 +164,13 @@ func (p *pathRun) fork(cond *smt.Term, why string) bool {
 		p.finish("bound", fmt.Sprintf("decision depth %d exceeded at %s", p.eng.MaxDepth, why))
 	}
 	p.res.Forks++
-	rt, _, _ := p.query(cond, p.eng.FeasMs, false)
+	rt := p.feas(cond)
 	if rt == smt.Unsat {
 		p.trail = append(p.trail, false)
 		p.addPC(p.ctx.Not(cond))
 		return false
 	}
-	rf, _, _ := p.query(p.ctx.Not(cond), p.eng.FeasMs, false)
+	rf := p.feas(p.ctx.Not(cond))
 	if rf == smt.Unsat {
 		p.trail = append(p.trail, true)
 		p.addPC(cond)
@@ -176,11 +179,34 @@ func (p *pathRun) fork(cond *smt.Term, why string) bool {
 	if rt == smt.Unknown || rf == smt.Unknown {
 		p.note("fork with unknown feasibility at %s", why)
 	}
+	if p.draining {
+		p.res.Assumes["drain-mode-branch-not-explored"]++
+		p.trail = append(p.trail, true)
+		p.addPC(cond)
+		return true
+	}
 	alt := append(append([]bool{}, p.trail...), false)
 	p.res.Alts = append(p.res.Alts, alt)
 	p.trail = append(p.trail, true)
 	p.addPC(cond)
 	return true
+}
+
+// feas decides feasibility of pc ∧ extra: incrementally first (short timeout),
+// falling back to a stateless one-shot query when that is inconclusive.
+func (p *pathRun) feas(extra *smt.Term) smt.Result {
+	if p.inc != nil {
+		ms := p.eng.IncMs
+		if ms == 0 {
+			ms = 1500
+		}
+		p.res.Queries++
+		if r := p.inc.Check(p.pc, extra, ms); r != smt.Unknown {
+			return r
+		}
+	}
+	r, _, _ := p.query(extra, p.eng.FeasMs, false)
+	return r
 }
 
 // freeFork is a fork whose two sides are feasible by construction (a choice on a
@@ -241,7 +267,7 @@ func (p *pathRun) assume(label string, cond *smt.Term) {
 		return
 	}
 	p.addPC(cond)
-	r, _, _ := p.query(nil, p.eng.FeasMs, false)
+	r := p.feas(nil)
 	if r == smt.Unsat {
 		p.finish("pruned", "assume "+label)
 	}
